@@ -11,6 +11,7 @@ import (
 	"strings"
 
 	"github.com/ethereum/go-ethereum/crypto"
+	"golang.org/x/crypto/blake2b"
 )
 
 // A small interpreter for the subset of Ralph (and of Solidity integer expressions) that
@@ -98,11 +99,21 @@ func (c *Contracts) File(suffix string) *RFile {
 
 type RVal any // *big.Int | []byte | bool | []RVal (tuple) | nil (unit)
 
-type Abort struct{ Msg string }
+type Abort struct {
+	Msg  string
+	Code string // ErrorCodes member of a failed assert!, empty for built-in aborts (slice bounds, width mismatch, overflow)
+}
 
 func (a *Abort) Error() string { return "contract aborts: " + a.Msg }
 
 type returnSignal struct{ vals []RVal }
+
+// EffectCall records a built-in or foreign call the interpreter does not model (token
+// transfers, migrations, calls into other contracts) together with its evaluated arguments.
+type EffectCall struct {
+	Name string
+	Args []RVal
+}
 
 // Interp executes extracted functions. Stubs supplies the environment the function lives in
 // (other contract functions, fields); unknown *effect* built-ins are recorded and ignored.
@@ -112,6 +123,7 @@ type Interp struct {
 	Fields  map[string]RVal                              // contract fields / parameters visible as identifiers
 	Stubs   map[string]func(args []RVal) ([]RVal, error) // user-defined functions called by name (also "obj.method")
 	Effects []string
+	EffectCalls []EffectCall
 	Emitted [][]RVal
 	steps   int
 }
@@ -179,8 +191,20 @@ func (in *Interp) block(stmts []RNode, env map[string]RVal) (*returnSignal, erro
 					in.Fields[n] = v
 					in.Effects = append(in.Effects, "field:"+n)
 				}
+			case "index":
+				o := node(tgt["o"])
+				i, err := in.eval(node(tgt["i"]), env)
+				if err != nil {
+					return nil, err
+				}
+				if o["t"] != "id" {
+					return nil, errors.New("extractor mismatch: assignment to a computed array")
+				}
+				key := fmt.Sprintf("%s[%v]", o["n"], i)
+				in.Fields[key] = v
+				in.Effects = append(in.Effects, "field:"+key)
 			default:
-				in.Effects = append(in.Effects, "assign-indexed")
+				return nil, errors.New("extractor mismatch: assignment target")
 			}
 		case "return":
 			var vals []RVal
@@ -464,12 +488,12 @@ func (in *Interp) bin(e RNode, env map[string]RVal) (RVal, error) {
 		out.Mul(ln, rn)
 	case "/":
 		if rn.Sign() == 0 {
-			return nil, &Abort{"division by zero"}
+			return nil, &Abort{Msg: "division by zero"}
 		}
 		out.Quo(ln, rn)
 	case "%":
 		if rn.Sign() == 0 {
-			return nil, &Abort{"division by zero"}
+			return nil, &Abort{Msg: "division by zero"}
 		}
 		out.Rem(ln, rn)
 	default:
@@ -477,7 +501,7 @@ func (in *Interp) bin(e RNode, env map[string]RVal) (RVal, error) {
 	}
 	// checked arithmetic: results live in [-2^255, 2^256)
 	if out.Cmp(u256Max) > 0 || out.Cmp(new(big.Int).Neg(new(big.Int).Lsh(big.NewInt(1), 255))) < 0 {
-		return nil, &Abort{"arithmetic overflow"}
+		return nil, &Abort{Msg: "arithmetic overflow"}
 	}
 	return out, nil
 }
@@ -542,11 +566,17 @@ func (in *Interp) call(name string, argNodes []RNode, env map[string]RVal) (RVal
 			return nil, errors.New("extractor mismatch: assert! on non-bool")
 		}
 		if !b {
-			return nil, &Abort{"assertion failed: " + exprString(argNodes[0])}
+			code := ""
+			if len(argNodes) > 1 {
+				if n, ok := argNodes[1]["n"].(string); ok {
+					code = n
+				}
+			}
+			return nil, &Abort{Msg: "assertion failed [" + code + "]: " + exprString(argNodes[0]), Code: code}
 		}
 		return nil, nil
 	case name == "panic!":
-		return nil, &Abort{"panic!"}
+		return nil, &Abort{Msg: "panic!"}
 	case name == "byteVecSlice!":
 		b, err := byt(0)
 		if err != nil {
@@ -561,7 +591,7 @@ func (in *Interp) call(name string, argNodes []RNode, env map[string]RVal) (RVal
 			return nil, err
 		}
 		if from.Sign() < 0 || to.Cmp(big.NewInt(int64(len(b)))) > 0 || from.Cmp(to) > 0 {
-			return nil, &Abort{fmt.Sprintf("byteVecSlice!(len %d, %v, %v) out of range", len(b), from, to)}
+			return nil, &Abort{Msg: fmt.Sprintf("byteVecSlice!(len %d, %v, %v) out of range", len(b), from, to)}
 		}
 		return append([]byte{}, b[from.Int64():to.Int64()]...), nil
 	case name == "size!":
@@ -578,7 +608,7 @@ func (in *Interp) call(name string, argNodes []RNode, env map[string]RVal) (RVal
 			return nil, err
 		}
 		if len(b) != n {
-			return nil, &Abort{fmt.Sprintf("%s on %d bytes", name, len(b))}
+			return nil, &Abort{Msg: fmt.Sprintf("%s on %d bytes", name, len(b))}
 		}
 		return new(big.Int).SetBytes(b), nil
 	case strings.HasPrefix(name, "u256To") && strings.HasSuffix(name, "Byte!"):
@@ -589,7 +619,7 @@ func (in *Interp) call(name string, argNodes []RNode, env map[string]RVal) (RVal
 			return nil, err
 		}
 		if v.Sign() < 0 || v.BitLen() > 8*n {
-			return nil, &Abort{fmt.Sprintf("%s(%v) does not fit", name, v)}
+			return nil, &Abort{Msg: fmt.Sprintf("%s(%v) does not fit", name, v)}
 		}
 		out := make([]byte, n)
 		v.FillBytes(out)
@@ -612,18 +642,39 @@ func (in *Interp) call(name string, argNodes []RNode, env map[string]RVal) (RVal
 			return nil, err
 		}
 		if len(h) != 32 || len(s) != 65 {
-			return nil, &Abort{"ethEcRecover! argument sizes"}
+			return nil, &Abort{Msg: "ethEcRecover! argument sizes"}
 		}
 		sig := append([]byte{}, s...)
 		if sig[64] != 27 && sig[64] != 28 {
-			return nil, &Abort{"ethEcRecover! recovery id"}
+			return nil, &Abort{Msg: "ethEcRecover! recovery id"}
 		}
 		sig[64] -= 27
 		pub, rerr := crypto.Ecrecover(h, sig)
 		if rerr != nil {
-			return nil, &Abort{"ethEcRecover! failed"}
+			return nil, &Abort{Msg: "ethEcRecover! failed"}
 		}
 		return crypto.Keccak256(pub[1:])[12:], nil
+	case name == "byteVecToAddress!" || name == "toByteVec!" || name == "addressToByteVec!" || name == "contractIdToAddress!":
+		if len(args) != 1 {
+			return nil, fmt.Errorf("extractor mismatch: %s arity", name)
+		}
+		return args[0], nil
+	case name == "isAssetAddress!":
+		if st, ok := in.Stubs[name]; ok {
+			vals, err := st(args)
+			if err != nil || len(vals) != 1 {
+				return nil, err
+			}
+			return vals[0], nil
+		}
+		return true, nil
+	case name == "blake2b!":
+		b, err := byt(0)
+		if err != nil {
+			return nil, err
+		}
+		h := blake2b.Sum256(b)
+		return h[:], nil
 	case name == "callerContractId!" || name == "selfContractId!" || name == "blockTimeStamp!":
 		if v, ok := in.Fields[name]; ok {
 			return v, nil
@@ -647,6 +698,7 @@ func (in *Interp) call(name string, argNodes []RNode, env map[string]RVal) (RVal
 		sub := &Interp{C: in.C, File: in.File, Fields: in.Fields, Stubs: in.Stubs}
 		vals, err := sub.Call(name, args...)
 		in.Effects = append(in.Effects, sub.Effects...)
+		in.EffectCalls = append(in.EffectCalls, sub.EffectCalls...)
 		in.Emitted = append(in.Emitted, sub.Emitted...)
 		if err != nil {
 			return nil, err
@@ -662,7 +714,14 @@ func (in *Interp) call(name string, argNodes []RNode, env map[string]RVal) (RVal
 	if strings.HasSuffix(name, "!") || strings.Contains(name, ".") {
 		// an effect (token transfer, migration, sub-contract call): recorded, not modelled
 		in.Effects = append(in.Effects, name)
+		in.EffectCalls = append(in.EffectCalls, EffectCall{Name: name, Args: args})
+		if name == "subContractId!" && len(args) == 1 {
+			return args[0], nil
+		}
 		return nil, nil
+	}
+	if len(name) > 0 && name[0] >= 'A' && name[0] <= 'Z' && len(args) == 1 {
+		return args[0], nil // contract cast: TokenBridgeForChain(id)
 	}
 	return nil, fmt.Errorf("extractor mismatch: call of unknown function %s", name)
 }
@@ -700,4 +759,13 @@ func U(n uint64) *big.Int { return new(big.Int).SetUint64(n) }
 func IsAbort(err error) bool {
 	var a *Abort
 	return errors.As(err, &a)
+}
+
+// AbortCode returns the error-code name of a contract abort ("" for built-in aborts) and whether err is an abort.
+func AbortCode(err error) (string, bool) {
+	var a *Abort
+	if errors.As(err, &a) {
+		return a.Code, true
+	}
+	return "", false
 }
